@@ -555,6 +555,9 @@ func TestC11(t *testing.T) {
 		if i%20 == 16 {
 			c11writeOnOpen(rep, seed, i/20)
 		}
+		if i%20 == 6 {
+			c11longStall(rep, seed, i/20)
+		}
 		if i%20 == 19 {
 			c11clients(rep, seed, i/20)
 		}
@@ -897,6 +900,63 @@ func c11writeOnOpen(rep *vh.Report, seed uint64, idx int) {
 				map[string]interface{}{"greetings": len(gl), "delivered": len(acc)})
 		}
 	}
+}
+
+// c11longStall: a link without write deadlines of its own (custom transport; WriteTimeout 80 ms configured on the node) stops
+// taking output for four write timeouts while 20 items - far fewer than the queue holds - are written to it, then moves
+// again. Nothing was dropped "while the backlog stayed below the bound": all 20 come out, in order.
+func c11longStall(rep *vh.Report, seed uint64, idx int) {
+	if aborted() {
+		return
+	}
+	r := vh.Sub(seed, fmt.Sprintf("c11-longstall-%d", idx))
+	hookReset(r.U64(), false, false)
+	c13WriteTimeout = 80 * time.Millisecond
+	defer func() { c13WriteTimeout = 0 }()
+	k := 1 + r.Intn(3)
+	n := c13start(rep, k, false, false)
+	if n == nil {
+		return
+	}
+	n.cons.prop = "C11"
+	const fam = 0xD1
+	v := r.Intn(k)
+	tr := n.trs[v]
+	tr.BlockWrites()
+	var want []uint64
+	nItems := 20 + r.Intn(20)
+	for i := 0; i < nItems; i++ {
+		uid := uint64(fam)<<56 | uint64(i+1)
+		want = append(want, uid)
+		if i%2 == 0 {
+			_ = n.node.WriteMessageTo(n.chans[v], &MessageVfUid{Uid: uid, Kind: 1})
+		} else {
+			_ = n.node.WriteFrameAll(&frame.V2Frame{SequenceNumber: byte(i), SystemID: 3, ComponentID: 4, Message: &MessageVfUid{Uid: uid, Kind: 1}})
+		}
+		time.Sleep(time.Duration(r.Intn(3)) * time.Millisecond)
+	}
+	backlog := n.chans[v].VerifBacklog()
+	time.Sleep(4 * c13WriteTimeout)
+	tr.UnblockWrites()
+	waitFor(func() bool { acc, _ := wireUIDs(tr, fam); return len(acc) >= len(want) }, func() int64 { return int64(tr.WriteCalls()) }, 500*time.Millisecond)
+	got, _ := wireUIDs(tr, fam)
+	closed := false
+	for _, ci := range n.cons.allChannels() {
+		if sn := n.cons.snapshot(ci); sn.Tr == tr && sn.State == 2 {
+			closed = true
+		}
+	}
+	rep.Eval(1)
+	rep.Count("scenarios_long_stall_below_bound", 1)
+	rep.Distinct("longstall", idx, k, v, nItems)
+	if !closed && !eqU64(got, want) {
+		rep.Violation("what="+classifySeq(got, want)+" ep=custom", fmt.Sprintf("%d items were written to a channel whose link took no output for four write timeouts (backlog %d, bound 64) and then moved again: %d came out", len(want), backlog, len(got)),
+			map[string]interface{}{"write_timeout_ms": 80, "stall_ms": 320, "first_got": head(got), "first_want": head(want)})
+	}
+	if !safeClose(rep, n.node) {
+		return
+	}
+	<-n.cons.done
 }
 
 // c11steady: a steady flow on one TCP link (an item every few ms, never a pause of a tenth of the write timeout) that lasts
